@@ -10,9 +10,9 @@ pub fn run(tier: Tier, seed: u64) {
         "zkabacus_crypto::merchant::Config::check_close_signature",
         "serde decode of ClosingSignature / PayToken replies (Signature::try_from)",
     ]);
-    eng::bound("histories: establish + <= 1 payment (quick) / amounts {7,-7,0} and 2 payments (thorough); at each of the four merchant-reply positions one fully symbolic reply (two arbitrary G1 elements), then the honest reply; close from every stage");
+    eng::bound("histories: establish + <= 1 payment, amounts {7,0} (quick) / amounts {7,-7,0} and 2 payments (thorough); at each of the four merchant-reply positions one fully symbolic reply (two arbitrary G1 elements), then the honest reply; close from every stage");
     eng::assumption("draws non-zero and the two revocation secrets of a history distinct");
-    let amts: Vec<i64> = if tier == Tier::Quick { vec![7] } else { vec![7, -7, 0] };
+    let amts: Vec<i64> = if tier == Tier::Quick { vec![7, 0] } else { vec![7, -7, 0] };
     for a in amts {
         history(seed, 100, 50, a);
     }
@@ -277,7 +277,19 @@ fn history(seed: u64, c0: u64, m0: u64, amt: i64) {
             let old_lock = atom_scalar(&atoms::atoms_of(&lockmsg.revocation_pair), "lock");
             // the two revocation secrets of this history are distinct draws
             let lat = atoms::atoms_of(&locked);
-            sx::assume(ne(atom_scalar(&atoms::atoms_of(&lockmsg.revocation_pair), "secret.secret"), atom_scalar(&lat, "state.revocation_pair.secret.secret")), "distinct revocation secrets");
+            let (sec_old, sec_new) = (atom_scalar(&atoms::atoms_of(&lockmsg.revocation_pair), "secret.secret"), atom_scalar(&lat, "state.revocation_pair.secret.secret"));
+            if sec_old.term() == sec_new.term() || sec_old.shadow() == sec_new.shadow() {
+                // not two draws that happen to collide: the successor state carries the very pair that was just revealed
+                eng::finding(
+                    "C03 revealed-revocation-pair-kept",
+                    &format!("{}: the lock message reveals the revocation pair the customer's new state still holds (amount {})", name, amt),
+                    None,
+                    json!({"kind": "none"}),
+                );
+                eng::path_done();
+                continue;
+            }
+            sx::assume(ne(sec_old, sec_new), "distinct revocation secrets");
             sx::set_label("merch:complete_payment");
             let pt2 = unrev.complete_payment(&mut rng, &lockmsg.revocation_pair, &lockmsg.revocation_lock_blinding_factor).ok().expect("complete");
             let pt2_id = with_zero_draw(|z| unrev_id.complete_payment(z, &lockmsg.revocation_pair, &lockmsg.revocation_lock_blinding_factor).ok().expect("complete (zero draw)"));
